@@ -459,6 +459,15 @@ class C15(Check):
                 if not flt and self.tag_active(TAG_INT) and int_arith_risk(d):
                     self.skip("known:" + TAG_INT)
                     continue
+                if flt:
+                    # evidence only (the value does not depend on it): does the Float text use f-suffixed calls / literals
+                    for kind, tok in cgen.tokens(r):
+                        if kind == "id" and tok in cgen.MATH_FUNCS:
+                            self.cls("float_text:unsuffixed_call:" + tok)
+                        elif kind == "num" and not tok.endswith("f") and not tok.isdigit():
+                            self.cls("float_text:unsuffixed_literal")
+                        elif kind == "num" and tok.isdigit():
+                            self.cls("float_text:integer_literal")
                 bycode.setdefault((r, flt), []).append(pname)
             for (code, flt), names in bycode.items():
                 funcs.append((code, ex["x"]))
